@@ -1,5 +1,6 @@
 // Implementation-side driver: calls the real kpu/preprocess code in-process.
 #include "proto.hh"
+#include <cstdint>
 #include "util/utf8.hh"
 #include "preprocess/base64.hh"
 #include "util/exception.hh"
@@ -29,11 +30,16 @@ static Reg r_utf8_decode("utf8.decode", [](const std::vector<std::string> &a) ->
 });
 
 static Reg r_utf8_isutf8("utf8.isutf8", [](const std::vector<std::string> &a) -> std::string {
+  // optional second argument: the address of the first byte modulo 8 (word-at-a-time code paths)
   std::string bs;
-  if (a.size() != 1 || !unhex(a[0], bs)) return "bad-op";
-  char *buf = new char[bs.size() + 1];
-  memcpy(buf, bs.data(), bs.size());
-  bool r = util::IsUTF8(util::StringPiece(buf, bs.size()));
+  if (a.size() < 1 || a.size() > 2 || !unhex(a[0], bs)) return "bad-op";
+  size_t al = a.size() == 2 ? strtoul(a[1].c_str(), NULL, 10) % 8 : 0;
+  char *buf = new char[bs.size() + 24];
+  char *p = buf;
+  while (reinterpret_cast<uintptr_t>(p) % 8) ++p;
+  p += al;
+  memcpy(p, bs.data(), bs.size());
+  bool r = util::IsUTF8(util::StringPiece(p, bs.size()));
   delete[] buf;
   return r ? "true" : "false";
 });
